@@ -204,7 +204,8 @@ def matchW : Nat → Sk → List Win → List (List Win × Bool)
     match ws with
     | [] => []
     | w :: rest =>
-      if w.mode = m && (!w.reads || hasEv .read body) && (!w.writes || hasEv .write body) then
+      -- (a storage call that writes may also read: `create_collection` looks whether the target exists)
+      if w.mode = m && (!w.reads || hasEv .read body || hasEv .write body) && (!w.writes || hasEv .write body) then
         -- inside the body further windows cannot open (windows are not nested)
         [(rest, false), (rest, true)]
       else []
